@@ -73,6 +73,10 @@ def run(ctx):
         "samples": samples, "kind_histogram": hist, "differences": diffs,
         "traces_validated_against_impl": lines,
     })
+    # legacy-format devices opened read-write keep their own record layout: extent arithmetic of the writer on v1 / v2
+    # devices (standing invariants of the kv harness, findings tagged C10)
+    import kv_engine
+    kv_engine.inv_stage(ctx, cov)
     return finish(ctx, "proof", cov, [
         "CRC-32C hardware paths (SSE4.2 / ARM) are exercised only as this machine selects them",
         "O_DIRECT I/O paths never execute in this sandbox (/.dockerenv present)",
